@@ -48,6 +48,12 @@ Definition two64 : N := 18446744073709551616.
 Definition add64 (a b : N) : N := (a + b) mod two64.
 Definition sub64 (a b : N) : N := (a + two64 - b mod two64) mod two64.
 
+(** common.BytesToHash: a byte string as a 32-byte hash — longer strings are cropped from the LEFT (the last 32 bytes
+    are kept), shorter ones are left-padded with zeros *)
+Definition hash32 (b : bytes) : bytes :=
+  let n := length b in
+  if (32 <? n)%nat then skipn (n - 32) b else repeat x00 (32 - n) ++ b.
+
 Fixpoint bmem (x : bytes) (l : list bytes) : bool :=
   match l with [] => false | y :: l' => bytes_eqb x y || bmem x l' end.
 Fixpoint bdistinct (l : list bytes) : list bytes :=
@@ -145,7 +151,10 @@ Record cfg := {
   f_upgrade_tss_nocons : bool;  (* 6db14eb: UpgradeClient stores no consensus state for a TSS client *)
   f_tm_upgrade_meta : bool;     (* C18a: Tendermint UpgradeState records processed time + iteration key *)
   f_toggle_clear : bool;        (* C18b: ToggleClient empties the client store first *)
-  f_cons_type_check : bool      (* C18c: proposals with a consensus state of another client type are rejected *)
+  f_cons_type_check : bool;     (* C18c: proposals with a consensus state of another client type are rejected *)
+  f_eth_root_check : bool;      (* aa5560b: ETH Initialize / UpgradeState refuse a consensus state whose root (as a 32-byte hash) is not the header's *)
+  f_eth_rev_check : bool;       (* 1e12297: ETH checkValidity refuses a header of another revision number than the client's *)
+  f_eth_old_header : bool       (* 072bc15: ETH checkValidity refuses a header older than the trusting period *)
 }.
 
 (** * Time *)
@@ -177,6 +186,8 @@ Definition status (now : N) (c : client_state) (s : cstore) : nat :=
     at [h]; 4 Tendermint processed time missing; 5 delay not passed yet (Tendermint: time; BSC/ETH: blocks);
     6 proof does not verify against the stored root; 7 TSS address mismatch. *)
 Definition root_gate (fx : bytes) (cs : cons_state) : nat := if bytes_eqb (cs_root cs) fx then 0%nat else 6%nat.
+(** BSC / ETH verifyMerkleProof: root := common.BytesToHash(consensusState.Root) *)
+Definition root_gate_evm (fx : bytes) (cs : cons_state) : nat := if bytes_eqb (hash32 (cs_root cs)) (hash32 fx) then 0%nat else 6%nat.
 
 Definition gate (now : N) (fx tssproof : bytes) (c : client_state) (s : cstore) (h : height) : nat :=
   match c with
@@ -197,13 +208,13 @@ Definition gate (now : N) (fx tssproof : bytes) (c : client_state) (s : cstore) 
       if h_lt (eh_height hd) h || negb (fst h =? fst (eh_height hd)) then 1%nat else   (* head gate, revision gate *)
       match get_cons BSC h s with
       | None => 3%nat
-      | Some cs => if sub64 (snd (eh_height hd)) (snd h) <? lenN vals / 2 + 1 then 5%nat else root_gate fx cs
+      | Some cs => if sub64 (snd (eh_height hd)) (snd h) <? lenN vals / 2 + 1 then 5%nat else root_gate_evm fx cs
       end
   | ClEth hd block_delay _ _ =>
       if h_lt (eh_height hd) h || negb (fst h =? fst (eh_height hd)) then 1%nat else
       match get_cons ETH h s with
       | None => 3%nat
-      | Some cs => if sub64 (snd (eh_height hd)) (snd h) <? block_delay then 5%nat else root_gate fx cs
+      | Some cs => if sub64 (snd (eh_height hd)) (snd h) <? block_delay then 5%nat else root_gate_evm fx cs
       end
   | ClTss addr _ => if bytes_eqb tssproof addr then 0%nat else 7%nat
   end.
@@ -229,10 +240,11 @@ Definition bsc_install (hd : evm_hdr) (epoch : N) (s : cstore) : outcome cstore 
                 end
        end.
 
-(** eth client_state.go Initialize = UpgradeState: header index + root-main entry of the installed header *)
+(** eth client_state.go Initialize = UpgradeState: header index + root-main entry of the installed header
+    (SetEthConsensusRoot files it under header.ToEthHeader().Root = common.BytesToHash(header.Root)) *)
 Definition eth_install (hd : evm_hdr) (s : cstore) : cstore :=
   let n := snd (eh_height hd) in
-  sset (KRootMain (eh_root hd) n) (VRefHIdx (eh_hash hd) n) (sset (KHIdx (eh_hash hd) n) (VHeader hd) s).
+  sset (KRootMain (hash32 (eh_root hd)) n) (VRefHIdx (eh_hash hd) n) (sset (KHIdx (eh_hash hd) n) (VHeader hd) s).
 
 Definition initialize (now : N) (c : client_state) (cns : cons_state) (s : cstore) : outcome cstore :=
   match c with
@@ -406,8 +418,9 @@ Definition eth_prune (trusting now : N) (s : cstore) : outcome cstore :=
       match get_cons ETH h s with
       | None => Err
       | Some cs =>
-          match sget (KRootMain (cs_root cs) (snd h)) s with
-          | Some (VRefHIdx hash n) => Ok (sdel (KCons h) (sdel (KRootMain (cs_root cs) (snd h)) (sdel (KHIdx hash n) s)))
+          (* GetHeaderIndexKeyByEthConsensusRoot(store, common.BytesToHash(consState.Root), height) *)
+          match sget (KRootMain (hash32 (cs_root cs)) (snd h)) s with
+          | Some (VRefHIdx hash n) => Ok (sdel (KCons h) (sdel (KRootMain (hash32 (cs_root cs)) (snd h)) (sdel (KHIdx hash n) s)))
           | _ => Err
           end
       end
@@ -415,19 +428,23 @@ Definition eth_prune (trusting now : N) (s : cstore) : outcome cstore :=
 
 Definition eth_is_fork (cur hd : evm_hdr) : bool := negb (bytes_eqb (eh_hash cur) (eh_parent hd)).
 
-Definition eth_update (now : N) (cur : evm_hdr) (block_delay trusting : N) (rest : bytes)
+Definition eth_update (cf : cfg) (now : N) (cur : evm_hdr) (block_delay trusting : N) (rest : bytes)
            (hd : evm_hdr) (hv : bool) (s : cstore)
   : outcome (client_state * option cons_state * cstore) :=
   match get_cons ETH (eh_height cur) s with
   | None => Err
   | Some _ =>
       if negb hv then Err else
+      (* checkValidity (1e12297): the relayer-supplied revision number must be the client's *)
+      if f_eth_rev_check cf && negb (fst (eh_height hd) =? fst (eh_height cur)) then Err else
       let n := snd (eh_height hd) in
       (* verifyHeader: the parent is read from the header index *)
       match sget (KHIdx (eh_parent hd) (sub64 n 1)) s with
       | Some (VHeader ph) =>
           if negb (bytes_eqb (eh_hash ph) (eh_parent hd)) then Err else
           if eh_time hd <=? eh_time ph then Err else
+          (* checkValidity (072bc15): header.Time + TrustingPeriod < block time (uint64) *)
+          if f_eth_old_header cf && evm_expired (eh_time hd) trusting now then Err else
           s1 <- eth_prune trusting now s ;;
           if eth_is_fork cur hd then Err (* RestrictChain: not modelled, flagged by LifecycleCheck *) else
           Ok (ClEth hd block_delay trusting rest,
@@ -437,13 +454,13 @@ Definition eth_update (now : N) (cur : evm_hdr) (block_delay trusting : N) (rest
       end
   end.
 
-Definition check_header_and_update (now : N) (c : client_state) (h : hdr) (s : cstore)
+Definition check_header_and_update (cf : cfg) (now : N) (c : client_state) (h : hdr) (s : cstore)
   : outcome (client_state * option cons_state * cstore) :=
   match c, h with
   | ClTm latest trusting drift delay rest, HTm trusted hh cns hv =>
       tm_update now latest trusting drift delay rest trusted hh cns hv s
   | ClBsc cur epoch vals trusting rest, HEvm BSC hd hv => bsc_update now cur epoch vals trusting rest hd hv s
-  | ClEth cur bd trusting rest, HEvm ETH hd hv => eth_update now cur bd trusting rest hd hv s
+  | ClEth cur bd trusting rest, HEvm ETH hd hv => eth_update cf now cur bd trusting rest hd hv s
   | ClTss _ _, HTss addr rest => Ok (ClTss addr rest, None, s)
   | _, _ => Err                                                       (* header of another client type *)
   end.
@@ -453,7 +470,7 @@ Definition keeper_update (cf : cfg) (now : N) (h : hdr) (s : cstore) : outcome c
   match sget KClient s with
   | Some (VClient c) =>
       if negb (Nat.eqb (status now c s) 0) then Err else
-      r <- check_header_and_update now c h s ;;
+      r <- check_header_and_update cf now c h s ;;
       let '(c', cns, s1) := r in
       let s2 := sset KClient (VClient c') s1 in
       match hdr_height cf h with
@@ -501,23 +518,38 @@ Inductive op :=
 Definition types_agree (cf : cfg) (p : proposal) : bool :=
   negb (f_cons_type_check cf) || ctype_eqb (cs_type (p_cons p)) (type_of (p_client p)).
 
+(** eth client_state.go checkConsensusRoot (aa5560b), called first by Initialize and UpgradeState: the consensus state's
+    root and the header's state root must be the same 32-byte hash.  (A nil consensus state is refused as well; the
+    proposal handlers never pass one: UnpackConsensusState fails before.)  The only other way an ETH Initialize /
+    UpgradeState fails is none, and every failure of a proposal is an error without effect, so the check is placed
+    with the other content checks of [exec]. *)
+Definition roots_agree (cf : cfg) (p : proposal) : bool :=
+  negb (f_eth_root_check cf) ||
+  match p_client p with
+  | ClEth hd _ _ _ => bytes_eqb (hash32 (cs_root (p_cons p))) (hash32 (eh_root hd))
+  | _ => true
+  end.
+
 Definition exec (cf : cfg) (st : state) (o : op) : outcome state :=
   match o with
   | Create p =>
       if negb (valid_name (p_name p) && p_validate p) then Err else
       if has_client st (p_name p) then Err else                        (* ErrClientExists *)
       if negb (types_agree cf p) then Err else
+      if negb (roots_agree cf p) then Err else
       s <- create_client (now st) (p_client p) (p_cons p) (store_of st (p_name p)) ;;
       Ok (with_store st (p_name p) s)
   | Upgrade p =>
       if negb (valid_name (p_name p) && p_validate p) then Err else
       if negb (types_agree cf p) then Err else
+      if negb (roots_agree cf p) then Err else
       s <- upgrade_client cf (now st) (p_client p) (p_cons p) (store_of st (p_name p)) ;;
       Ok (with_store st (p_name p) s)
   | Toggle p =>
       if negb (valid_name (p_name p) && p_validate p) then Err else
       if negb (has_client st (p_name p)) then Err else                 (* ErrClientNotFound *)
       if negb (types_agree cf p) then Err else
+      if negb (roots_agree cf p) then Err else
       s <- toggle_client cf (now st) (p_client p) (p_cons p) (store_of st (p_name p)) ;;
       Ok (with_store st (p_name p) s)
   | Register addr chains wf =>
@@ -555,9 +587,11 @@ Fixpoint run (cf : cfg) (st : state) (os : list op) : state :=
     compared with the implementation by the correspondence check). *)
 Definition pinned_cfg : cfg :=
   {| f_toggle_new := false; f_tss_height := false; f_upgrade_tss_nocons := false;
-     f_tm_upgrade_meta := false; f_toggle_clear := false; f_cons_type_check := false |}.
+     f_tm_upgrade_meta := false; f_toggle_clear := false; f_cons_type_check := false;
+     f_eth_root_check := false; f_eth_rev_check := false; f_eth_old_header := false |}.
 Definition head_cfg : cfg :=
   {| f_toggle_new := true; f_tss_height := true; f_upgrade_tss_nocons := true;
-     f_tm_upgrade_meta := true; f_toggle_clear := true; f_cons_type_check := true |}.
+     f_tm_upgrade_meta := true; f_toggle_clear := true; f_cons_type_check := true;
+     f_eth_root_check := true; f_eth_rev_check := true; f_eth_old_header := true |}.
 
 Definition empty_state (t : N) : state := {| clients := []; relayers := []; now := t |}.
